@@ -7,7 +7,7 @@ suffix=sys.argv[1]
 props=[json.loads(l) for l in open('/verif/properties.jsonl')]
 claimed=['C01','C02','C03','C04','C06','C12','C13','C14','C15','C16','C17','C18','C20']
 ptext='\n'.join(f"  [{p['id']}] {p['title']}: {p['statement']}" for p in props if p['id'] in claimed)
-areas={
+areas_a={
  'B1':"par2/decoder.go: the slice scan (fillShardInfos / fillFileIntegrityInfos / the checksum location map). For example restructure the loop, change the data structures, avoid recomputation, scan in a different but equivalent way.",
  'B2':"rsec16/matrix.go and rsec16/coder.go: how work is split among goroutines and how results are assembled (for example different chunk sizes, splitting by output rows for some shapes, a worker pool, reusing buffers safely). Keep the calls to verifStep/verifFork/verifEnter/verifExit/verifJoin/verifJoined meaningful where the existing code has them (they are inert instrumentation), and do not edit verif_*.go files.",
  'B3':"the file I/O layer and the ORDER of I/O in par2 (defaultFileIO, volume discovery, the order in which data files and volume files are read, when files are written). For example read recovery files before data files, sort or de-duplicate discovered volume names, use os instead of ioutil, write via a helper - all without changing any observable result.",
@@ -15,6 +15,15 @@ areas={
  'B5':"cmd/par/main.go: refactor flag handling, command dispatch, messages and error classification WITHOUT changing any exit status or what is written to disk (output text may change).",
  'B6':"par2/encoder.go, par2/file.go, par2/packet.go and the packet readers/writers: restructure how packets are built, parsed and dispatched, buffer handling, error wrapping - without changing the bytes written or what is accepted.",
 }
+areas_b={
+ 'B1':"par2: change observable details that NONE of the properties constrain - error message texts and which of several applicable errors is returned first, the order of entries in RepairResult.RepairedPaths, the creator packet's text, the number and order of delegate callbacks that carry no error, the order in which Repair writes the files it has to write.",
+ 'B2':"par2 Create output layout where the PAR2 format and the properties leave freedom: the order of packets inside the index and volume files, repeating critical packets between recovery packets, how recovery blocks are distributed over volume files and how those files are numbered/named (still '<base>.volNNN+MMM.par2'-like names matching '<base>.*.par2'), as long as the result is a conformant set with the same recovery blocks.",
+ 'B3':"par1: change observable details that the properties do not constrain - error texts, the order of checks that lead to the same accept/reject decision, delegate callback details, the order in which missing files are written by Repair, reading volumes in a different order (for example highest number first) with the same final result.",
+ 'B4':"cmd/par: change everything about the CLI that the exit-status property does not constrain: wording and order of messages, additional informational output, flag help texts, log prefixes - keep exit statuses and on-disk effects exactly.",
+ 'B5':"rsec16: change the parallel execution strategy in ways no property constrains: a different number of worker goroutines than requested when fewer suffice, workers processing their ranges in a different internal order (columns outer, rows inner; or last range first), starting workers lazily. Keep the calls to verifStep/verifFork/verifEnter/verifExit/verifJoin/verifJoined meaningful where the existing code has them and do not edit verif_*.go files. Results (bytes) must be unchanged.",
+ 'B6':"par2 Verify/Repair internals: when and how often files are read (for example reading each data file only once and caching it between load and repair, or re-reading the index), skipping work that cannot change the result (not building the coder when nothing is missing), freeing memory early - with identical results, errors and written files.",
+}
+areas = areas_b if suffix >= 'b' else areas_a
 T='''You are helping test a verification effort for the Go project akalin/gopar (a Go implementation of the PAR1 and PAR2 parity-archive formats with its own GF(2^16) arithmetic, Reed-Solomon coder and a `par` CLI). You have your own scratch git worktree of the repository at {wt} . Work ONLY inside {wt} (source edits) and {out} (your deliverables). Never read or write anything under /repo or /verif.
 
 Every shell call needs: export GOFLAGS=-mod=mod GOPROXY=off GOSUMDB=off GOTOOLCHAIN=local   (no network; default `go` is 1.23). Run the test suite with: cd {wt} && go test -count=1 ./...
@@ -24,7 +33,7 @@ The project is supposed to satisfy these semantic properties:
 
 YOUR TASK: make a SUBSTANTIAL but strictly BEHAVIOUR-PRESERVING change to the non-test source - a refactoring, modernisation or optimisation that a maintainer might really commit - in this area:
   {area}
-The change must keep EVERY property above true for every input they quantify over (think hard about corner cases: empty/short files, final partial slices, duplicate content, missing files, damaged or foreign recovery files, names with unusual characters, many goroutines, I/O errors at any call). It should be big enough to be interesting (roughly 40-150 changed lines), change internal structure, control flow, data structures or the order of internal operations, and it must compile, pass `go vet`, and pass the unedited test suite (go test -count=1 ./...). Also run `go build -tags verif ./...`. Do not edit *_test.go or verif_*.go files; do not add dependencies.
+In this wave the point is to change things the properties leave OPEN while keeping everything they do constrain. The change must keep EVERY property above true for every input they quantify over (think hard about corner cases: empty/short files, final partial slices, duplicate content, missing files, damaged or foreign recovery files, names with unusual characters, many goroutines, I/O errors at any call). It should be big enough to be interesting (roughly 40-150 changed lines), change internal structure, control flow, data structures or the order of internal operations, and it must compile, pass `go vet`, and pass the unedited test suite (go test -count=1 ./...). Also run `go build -tags verif ./...`. Do not edit *_test.go or verif_*.go files; do not add dependencies.
 If you are not sure that something preserves behaviour, do not do it. After writing the change, review it once more specifically looking for behaviour differences, and fix any you find.
 
 Deliverables in {out}/ :
